@@ -566,7 +566,7 @@ impl Prop for C03 {
     fn assumptions(&self) -> Vec<String> {
         vec![
             "'up to rounding' is read as 'in real arithmetic': the exact mode routes sqrt/exp/ln/log2 through f64 as a deterministic function of the exact argument, so equal exact states give equal outputs".into(),
-            "f64 mode excludes WelfordOnline, Vst, Vsct (subtractive m2 downdate has condition number (mean/std)^2; bounding that is C16's subject)".into(),
+            "f64 mode runs single views only and excludes WelfordOnline, Vst, Vsct (subtractive m2 downdate has condition number (mean/std)^2) and Alma::new_custom (steady-state weight can be 1e-16 of the start-up weights: cancellation); bounding those errors is C16's subject. They, and all two-level chains, are decided in exact mode".into(),
             "MyRSI / Roc are only placed directly over the raw stream, so that the hold-exception is computable from the suffix".into(),
             "PFE from its minimum window 3; a panic or constructor rejection ends the run (counted as skipped)".into(),
         ]
